@@ -17,12 +17,12 @@ COMMON_TRUSTED = [
     "channel table: ChannelSlots::{insert, insert_unused_channel_id, remove}; the write loop: Inner::write_to_stream; the "
     "frame buffer: Inner::read_from of src/frame_buffer.rs; the queue helpers of connection_state.rs: send, "
     "try_send_return, try_send_confirm, ConnectionState::client_exception; Consumer::cancel and its Drop; the option helpers "
-    "QueueDeclareOptions::into_declare, QueueDeleteOptions::into_delete, ExchangeDeclareOptions::into_declare; Connection::close_impl; Inner::{deregister, reregister}_nonzero_channels; amqp_url::{populate_host_and_port, decode}; RxTxHeartbeat::new, HeartbeatTimers::{start, fire_rx, fire_tx}); the meaning given to the Rust subsets is stated in those files and trusted; "
+    "QueueDeclareOptions::into_declare, QueueDeleteOptions::into_delete, ExchangeDeclareOptions::into_declare; Connection::close_impl; Inner::{deregister, reregister}_nonzero_channels; amqp_url::{populate_host_and_port, decode}; RxTxHeartbeat::new, HeartbeatTimers::{start, fire_rx, fire_tx}); Inner::process_heartbeat_timers; the meaning given to the Rust subsets is stated in those files and trusted; "
     "the translations are proved equal to the hand-written models (C15_source_is_model, C17_fire_source_is_model, "
     "C02_limit_source_is_model, C08_seal_source_is_model, C03_source_is_model, C16_process_source_is_model, C04_call_source_is_model, C02_send_content_source_is_model, C14_next_source_is_model / "
     "C14_drop_source_is_model / C14_process_source_is_model, C10_insert_some_source_is_model / C10_insert_none_source_is_model / "
     "C10_remove_source_is_model, C01_write_source_is_model, C06_read_from_source_is_model, C04_send_source_is_model, C13_try_send_return_source_is_model / "
-    "C13_try_send_confirm_source_is_model, C07_client_exception_source_is_model, C11_cancel_source_is_model / C11_drop_source_is_model, C12_queue_declare / queue_delete / exchange_declare_source_is_model, C20_close_source_is_model, C18_deregister_source_is_model / C18_reregister_source_is_model, C19_populate_source_is_model / C19_decode_source_is_model, C17_timers_source_is_model, C17_start_fire_source_is_model)",
+    "C13_try_send_confirm_source_is_model, C07_client_exception_source_is_model, C11_cancel_source_is_model / C11_drop_source_is_model, C12_queue_declare / queue_delete / exchange_declare_source_is_model, C20_close_source_is_model, C18_deregister_source_is_model / C18_reregister_source_is_model, C19_populate_source_is_model / C19_decode_source_is_model, C17_timers_source_is_model, C17_start_fire_source_is_model, C17_pass_source_is_model / C17_pass_source_not_masked)",
     "no extraction is used: the model is evaluated by the kernel's VM",
 ]
 
@@ -777,7 +777,7 @@ _TRANSLATED = {
     "C14": "the confirm smoother (C14_process / next / drop_source_is_model, C14_run_all_source_is_model)",
     "C15": "ConnectionOptions::make_tune_ok and Channel0Handle::new (C15_source_is_model, C15_limit_source_is_model)",
     "C16": "HandshakeState::process (C16_process_source_is_model)",
-    "C17": "Heartbeat::fire, RxTxHeartbeat::new and HeartbeatTimers::{start, fire_rx, fire_tx} (C17_fire_source_is_model, C17_timers_source_is_model, C17_start_fire_source_is_model)",
+    "C17": "Heartbeat::fire, RxTxHeartbeat::new and HeartbeatTimers::{start, fire_rx, fire_tx} and Inner::process_heartbeat_timers (C17_fire_source_is_model, C17_timers_source_is_model, C17_start_fire_source_is_model, C17_pass_source_is_model)",
 }
 for _p, _what in _TRANSLATED.items():
     PROPS[_p]["technique"] = ("Coq proof over a model of which the anchored functions are REGENERATED from the source text "
